@@ -587,12 +587,20 @@ def run_live(ctx, cfg, script=None, record=True):
                 do_write_suspended(op[1], data, op[4], op[5])
             else:
                 do_read(op[1], op[2], op[3])
+        # a replayed script may end before everything was read: read out what is deliverable
+        for who in ("client", "server"):
+            for _ in range(2000):
+                if failed[0] or len(got[who]) >= len(written[peer[who]]):
+                    break
+                do_read(who, None, 1)
+                if fifo_exp[-1][0] != "d":
+                    break
 
     # --- direct oracle, end of connection
     if not failed[0]:
         for who in ("client", "server"):
             src = peer[who]
-            if script is None and bytes(got[who]) != bytes(written[src]):
+            if bytes(got[who]) != bytes(written[src]):
                 viol("c01:data-mismatch", "%s read %d bytes, %s wrote %d" % (who, len(got[who]), src, len(written[src])))
             app = [n for (t, n) in recv_log[who] if t == 23]
             for i, n in enumerate(app):
